@@ -6,7 +6,8 @@
    are re-proved against the current source each time.  [carries_ref], [appropriate], [known_row]
    are the hand-written specification C07/Spec.v. *)
 From Coq Require Import String.
-From FB Require Import C07.Model C07.Spec C07.Theory C07.WithC06 C07.Tree C07.TreeTheory C07.EntryNames C07.Laws C07.Laws2 C07.Occ.
+From FB Require Import C07.BridgeDefs C07.Model C07.Spec C07.Theory C07.WithC06 C07.Tree C07.TreeTheory C07.EntryNames C07.Laws C07.Laws2 C07.Occ C07.Bridge C07.Total.
+From FB Require C02.Class C02.Decode C02.TheoryC1 C02.TheoryC8 C02.TheoryC10.
 
 (* Th 1: every position that carries a class / field / method reference is rebuilt with the
    remapper method appropriate for it (outside the rows recorded as known findings: none today) *)
@@ -421,3 +422,147 @@ Print Assumptions C07_class_members_ctx.
 Theorem C07_occurrence_example : occ_example.
 Proof. exact occ_example_holds. Qed.
 Print Assumptions C07_occurrence_example.
+
+(* ------------------------------------------------------------------ *)
+(* The content of the entries (C07/Model.v remap_content / remap_jar, C07/EntryNames.v).  [zip_class_suffix] is read by the
+   translator from dukebox/src/storage/zip_impls.rs (which entries are handed to remap_class), [class_suffix] from
+   remap.rs (which entries are renamed as classes). *)
+
+(* the entries that are read as classes are exactly the entries that are renamed as classes *)
+Theorem C07_class_suffixes_agree : zip_class_suffix = class_suffix.
+Proof. exact class_suffixes_agree. Qed.
+Print Assumptions C07_class_suffixes_agree.
+
+(* "non-class entries … are unchanged": entry by entry, in input order — an entry whose name does not end in `.class` keeps
+   its name and its content (a directory stays a directory, any other entry keeps its bytes); a class entry is stored under
+   map_class(name without `.class`) + `.class` and holds what remap_class made of its bytes ([rc]) *)
+Theorem C07_entries_out :
+  forall (C : Type) (R : remapper) (rc : list N -> res C) (es : list (str * (bool * list N))) (l : list (str * content C)),
+    entries_spec R (remap_content rc) es = Ok l ->
+    Forall2 (fun (e : str * (bool * list N)) (o : str * content C) =>
+               ((forall base, fst e <> base ++ dot_class) ->
+                  fst o = fst e /\ snd o = (if fst (snd e) then KDir else KOther (snd (snd e)))) /\
+               (forall base, fst e = base ++ dot_class ->
+                  (exists n, map_class R base = Ok n /\ fst o = n ++ dot_class) /\
+                  (if fst (snd e) then snd o = KDir else exists c, rc (snd (snd e)) = Ok c /\ snd o = KClass c))) es l.
+Proof. exact (fun C R rc es l => entries_spec_out R rc es l). Qed.
+Print Assumptions C07_entries_out.
+
+(* … and that list is what `remap` returns when the input names are distinct and the remapper is injective on the class entries *)
+Theorem C07_remap_jar_spec :
+  forall (C : Type) (R : remapper) (rc : list N -> res C) (es : list (str * (bool * list N))) (l : list (str * content C)),
+    NoDup (map fst es) -> injective_on R (map fst es) ->
+    entries_spec R (remap_content rc) es = Ok l ->
+    remap_jar R rc es = Ok l /\ Forall2 (entry_out R rc) es l.
+Proof. exact remap_jar_spec. Qed.
+Print Assumptions C07_remap_jar_spec.
+
+Theorem C07_content_example : content_example_stmt.
+Proof. exact content_example. Qed.
+Print Assumptions C07_content_example.
+
+(* ------------------------------------------------------------------ *)
+(* Bridge to the class writer (C07/BridgeDefs.v, C07/Bridge.v; C02/Class.v write_class_aux, C02/Decode.v).
+   [op_ref i]: the class / field / method reference an instruction carries as its direct operand, with its JVMS opcode
+   (new, anewarray, checkcast, instanceof, multianewarray, get/putstatic, get/putfield, invokevirtual, invokespecial,
+   invokestatic, invokeinterface).  [remap_oref R o]: what the remapper answers for it (map_class_any / map_field_ref / map_method_ref). *)
+
+(* the operand of the remapped instruction is the remapped operand of the instruction *)
+Theorem C07_insn_operand_commutes :
+  forall (R : remapper) (ctx : option str) (i i' : val) (o : oref),
+    has_ty type_defs (TName "Instruction") i = true ->
+    remap_val gen_table R ctx (TName "Instruction") i = Ok i' -> op_ref i = Some o ->
+    exists o', remap_oref R o = Ok o' /\ op_ref i' = Some o'.
+Proof. exact insn_commutes_remap. Qed.
+Print Assumptions C07_insn_operand_commutes.
+
+(* COMPOSITION WITH THE WRITER.  v: a well-typed class; v': what the interpreter of the regenerated table makes of it; t: an
+   input of C02's writer model that carries, at the instructions of v' with a reference operand, that operand ([code_views]:
+   the relation between the two models of duke's tree on this part); cclass_ok t: C02's decidable well-formedness; the
+   writer model succeeds with the bytes bs.  Then, for every decoder view cp of the written constant pool (C02_pool_written_parses:
+   the view C02's decoder parses from bs is one), at the offset q of instruction k of method j in the written code array w
+   stand the opcode and a u16 index that cp resolves — kind-checked — to the class / Fieldref / Methodref /
+   InterfaceMethodref of what the remapper answers for the operand of instruction k of method j of the ORIGINAL class
+   (for invokeinterface followed by the count operand C02's model of get_arguments_size computes from the REMAPPED
+   descriptor, and 0).  C07/BridgeLift.v lifts C02's per-Code-attribute theorem code_operands_resolve to whole classes. *)
+Theorem C07_written_operands :
+  forall (R : remapper) (v v' : val) (t : C02.Class.cclass) (cbytes : list N) (aux : C02.Class.class_aux),
+    has_ty type_defs (TName "ClassFile") v = true ->
+    remap_val gen_table R None (TName "ClassFile") v = Ok v' ->
+    code_views v' t ->
+    C02.TheoryC8.cclass_ok t = true ->
+    C02.Class.write_class_aux t = C02.Class.WOK (cbytes, aux) ->
+    forall cp, C02.TheoryC1.agrees (C02.Class.a_pool aux) cp ->
+    forall j k i o, sub (insn_path j k) v = Some i -> op_ref i = Some o ->
+      exists o' w labs pos q,
+        remap_oref R o = Ok o' /\
+        nth_error (C02.Class.a_codes aux) j = Some (Some (w, labs, pos)) /\ nth_error pos k = Some q /\
+        match o' with
+        | OClass op c post =>
+            exists x, C02.TheoryC10.bytes_at w q ([op] ++ C02.Model.be16 x ++ post) /\
+                      C02.Decode.get_class cp x = Some (C02.Class.mutf8 c)
+        | OField op c n d =>
+            exists x, C02.TheoryC10.bytes_at w q ([op] ++ C02.Model.be16 x ++ []) /\
+                      C02.Decode.get_fieldref cp x = Some (mref c n d)
+        | OMethod op b c n d =>
+            exists x, C02.TheoryC10.bytes_at w q ([op] ++ C02.Model.be16 x ++ []) /\
+                      (if b then C02.Decode.get_imethodref cp x else C02.Decode.get_methodref cp x) = Some (mref c n d)
+        | OIface c n d =>
+            exists x cnt, C02.TheoryC10.bytes_at w q (185%N :: C02.Model.be16 x ++ [C02.Model.byte_of cnt; 0%N]) /\
+                          C02.Decode.get_imethodref cp x = Some (mref c n d) /\
+                          C02.Class.args_size (C02.Class.mutf8 d) = Ok cnt
+        end.
+Proof. exact written_operands. Qed.
+Print Assumptions C07_written_operands.
+
+(* the boolean C07/Run.v evaluates on the bytes duke::write_class produced (BridgeDefs.check_written, per instruction
+   written_at_b) implies that conclusion *)
+Theorem C07_written_check_sound :
+  forall cp w q o, written_at_b cp w q o = true -> written_at cp w q o.
+Proof. exact written_at_b_sound. Qed.
+Print Assumptions C07_written_check_sound.
+
+(* non-vacuity: every hypothesis of C07_written_operands holds for a concrete class, remapper and writer input; getfield
+   a/A.f:I comes out as opcode 180 with an index that every view of the written pool resolves to the Fieldref x/Y.g:I *)
+Theorem C07_written_example : written_example.
+Proof. exact written_example_holds. Qed.
+Print Assumptions C07_written_example.
+
+Theorem C07_written_check_example : written_check_example.
+Proof. exact written_check_example_holds. Qed.
+Print Assumptions C07_written_check_example.
+
+(* ------------------------------------------------------------------ *)
+(* When does remapping succeed? (C07/Total.v)  All statements above are about the answer Ok v'.  [total g]: the three methods of
+   the remapper never answer with an error.  [idR]: the remapper that renames nothing.  A tree that idR can remap (every
+   descriptor in it can be scanned, every record component name is a field name: facts about the tree alone) is remapped by
+   every total remapper — so an error of remap_class is an error of the remapper or a malformed reference string in the class. *)
+Theorem C07_remap_succeeds :
+  forall (g : remapper) (ctx : option str) (T : rty) (v v0 : val),
+    total g ->
+    deleg_ok gen_table (ref_types type_defs) T = true -> has_ty type_defs T v = true ->
+    remap_val gen_table idR ctx T v = Ok v0 ->
+    exists v', remap_val gen_table g ctx T v = Ok v'.
+Proof. exact remap_val_total. Qed.
+Print Assumptions C07_remap_succeeds.
+
+Theorem C07_remap_class_succeeds :
+  forall (g : remapper) (v v0 : val),
+    total g -> has_ty type_defs (TName "ClassFile") v = true ->
+    remap_val gen_table idR None (TName "ClassFile") v = Ok v0 ->
+    exists v', remap_val gen_table g None (TName "ClassFile") v = Ok v'.
+Proof. exact remap_class_total. Qed.
+Print Assumptions C07_remap_class_succeeds.
+
+(* for the specification over any type definitions: success is monotone in the leaf applications *)
+Theorem C07_spec_success_monotone :
+  forall defs S f g,
+    (forall m x y, apply_leaf f m x = Ok y -> exists y', apply_leaf g m x = Ok y') ->
+    (forall m ctx sib x y, apply_pos f m ctx sib x = Ok y -> exists y', apply_pos g m ctx sib x = Ok y') ->
+    forall v T ctx w1, spec_val defs S f ctx T v = Ok w1 -> exists w2, spec_val defs S g ctx T v = Ok w2.
+Proof. exact spec_val_ok_mono. Qed.
+Print Assumptions C07_spec_success_monotone.
+
+Theorem C07_total_example : total_example.
+Proof. exact total_example_holds. Qed.
+Print Assumptions C07_total_example.
